@@ -36,3 +36,8 @@ pub use hashsum::HashSum;
 pub mod verif_rolling_hash {
     pub use crate::rolling_hash::{BuzHash, RollSum, RollingHash};
 }
+
+/// Verification hook: the bounded decompression output buffer, reachable from the verification harness only.
+#[cfg(oll3_bita_verif)]
+#[doc(hidden)]
+pub use compression::verif_limited_output;
